@@ -72,6 +72,14 @@ class Taps:
                        "xl": pb.bounds.xl, "xu": pb.bounds.xu}
                 t.pb = pb
                 t.evals.append(rec)
+                # the point the trial point was built from (x_best + step, or the starting point during the
+                # initial sampling): its magnitude bounds the rounding of that sum
+                try:
+                    fw = t.framework
+                    rec["x_from"] = (np.array(fw.x_best, dtype=float, copy=True)
+                                     if fw is not None and hasattr(fw, "_models") else np.array(pb.x0, dtype=float))
+                except Exception:
+                    rec["x_from"] = None
                 try:
                     rec["x_full"] = np.array(pb.build_x(xa), dtype=float, copy=True)
                 except Exception:
